@@ -830,11 +830,19 @@ nni_aio_iov_count(nni_aio *aio)
 	return (residual);
 }
 
+#ifdef NNG_VERIF
+// Upper bound of the bytes one read or write system call may move (short I/O on demand).
+size_t nni_verif_io_max = (size_t) INT_MAX;
+#define NNI_IO_MAX nni_verif_io_max
+#else
+#define NNI_IO_MAX ((size_t) INT_MAX)
+#endif
+
 bool
 nni_aio_iov_clamp_len(size_t *len, size_t *count)
 {
-	NNI_ASSERT(*count <= (size_t) INT_MAX);
-	size_t headroom = (size_t) INT_MAX - *count;
+	NNI_ASSERT(*count <= NNI_IO_MAX);
+	size_t headroom = NNI_IO_MAX - *count;
 	bool   clamped  = *len > headroom;
 	if (clamped) {
 		*len = headroom;
